@@ -560,6 +560,49 @@ impl C07 {
 
 /// Every single-bit flip and every truncation of genuine datagrams, presented to the live endpoint they were meant for:
 /// nothing observable may change (the decode-only version of this enumeration is C17's).
+/// A client's connection request travels in the clear. Somebody who saw it (or only its last bytes) sends a damaged copy from another
+/// address BEFORE the genuine one reaches the server - one bit flipped in the sealed token, its nonce, or the clear header fields,
+/// the trailing authentication tag intact. That datagram is not authentic: it must leave no trace, in particular the genuine client's
+/// handshake from its own address must complete afterwards.
+fn preempted_request(index: u64, ctx: &mut Ctx) -> Outcome {
+    let from = [Target::ServerFromUnknown, Target::ServerFromPending, Target::ServerFromConnected][(index % 3) as usize];
+    let k = index / 3;
+    // byte offsets: 30 positions in the header / nonce (1..54), 100 in the sealed token before its tag (54..1062)
+    let byte = if k < 30 { 1 + (k as usize * 53 / 30) } else { 54 + ((k as usize - 30) * 1008 / 100) };
+    let bit = (index % 8) as u8;
+    let mut nw = stage(7, 15)?;
+    ctx.op(&("preempted_request", from, byte, bit));
+    // R has not sent anything yet: its first request is produced now and held back
+    let Some(did) = nw.client_update(R, Duration::from_millis(20)) else { return Err(Fail::new("stage", "fresh client produced no request").sig("harness_io")) };
+    let genuine = nw.pool[did].clone();
+    if genuine.kind != 0 || genuine.bytes.len() != 1078 {
+        return Err(Fail::new("stage", "first datagram of a fresh client is not a 1078-byte request").sig("harness_io"));
+    }
+    let mut forged = genuine.bytes.clone();
+    forged[byte] ^= 1 << bit;
+    present_forged(&mut nw, from, &forged, &format!("request of another client with bit {bit} of byte {byte} flipped, presented before the genuine one"))?;
+    // now the genuine request arrives from its own address: challenge, and the handshake completes
+    nw.pool[did].presented += 1;
+    match nw.server_recv(0, genuine.src, &genuine.bytes) {
+        SrvOut::Send { did: r, .. } => {
+            let b = nw.pool[r].bytes.clone();
+            nw.client_recv(R, &b);
+        }
+        other => {
+            return Err(Fail::new(
+                "genuine_rejected_afterwards",
+                format!("the genuine request of a fresh client got {other:?} after a damaged copy of it (bit {bit} of byte {byte}) had been presented from {from:?}"),
+            ))
+        }
+    }
+    if !nw.handshake(0, R, Duration::from_millis(260), 12) {
+        return Err(Fail::new("genuine_rejected_afterwards", format!("a fresh client could not finish its handshake after a damaged copy of its request (bit {bit} of byte {byte}) had been presented from {from:?}")));
+    }
+    ctx.label("preempted_request");
+    ctx.nontrivial = true;
+    Ok(())
+}
+
 const SEALED_LENS: [usize; 17] = [0, 1, 7, 8, 9, 100, 299, 300, 301, 307, 308, 309, 400, 1200, 1300, 1301, 1382];
 
 /// A peer that holds a session key (anybody with a valid token does) seals a datagram of any kind around a body of any length - sealed
@@ -676,7 +719,7 @@ impl Property for C07 {
         "exploration"
     }
     fn rule(&self) -> String {
-        "Floods (enumerated): every target endpoint is handed all 256 prefix bytes twice in a row at each length class, 512 hostile datagrams with nothing genuine in between, under the same per-datagram oracles, then genuine traffic must still work. A case stages a secure server holding every protocol state at once (unknown address, pending address, connected victim, connected bystander; clients requesting, responding, connected, disconnected) and presents non-authentic datagrams to the server from every source-address class and to every client: mutations (bit flips in prefix / sequence / body / tag, truncations, extensions, prefix replacement) of genuine datagrams of any session and direction, genuine datagrams replayed or presented at the wrong endpoint, well-formed prefixes with boundary lengths and all-zero / all-ff sequence bytes, random bytes 0..1400; silence is interleaved so a refreshed timer shows. Enumerated: all 256 prefix bytes x 13 boundary lengths x 2 fills x 7 targets; every single-bit flip and every truncation of eight fresh genuine datagrams (payload, keep-alive, response, challenge, request; both directions) presented to the live endpoint they were meant for. Sealed bodies (enumerated): a peer holding a session key (the pending client, the connected client, the server towards each of them) seals every packet kind 1..15 around bodies of 17 lengths from 0 to 1382 bytes (all-zero and pseudo-random) with a fresh sequence number - authentic datagrams whose body has the wrong size for their kind; no-unwind clause only. Tokens: raw bytes and field-wise mutations of valid serialisations (address count 0/33/2^32-1, 32..300 well-formed entries with and without NONE entries, type tags 0/1/2/3/255, expire < create, zero/negative timeouts, truncations) through ConnectToken::read -> NetcodeClient::new -> update / process_packet / generate_payload_packet / disconnect. Sealed hostile tokens: connection requests whose private token is sealed correctly - an unsecure server's key is public, a secure server's backend may err - around a hostile plaintext (0..100 well-formed address entries with the server's own address first, last, at slot 31 or nowhere, lying counts, unknown type tags, up to 40 NONE entries, random bytes; timeouts 0, negative, i32 extremes; ids 0, 2^63, 2^64-1; expiry at, around and far beyond the server second, clocks 0 and 2^33 s), answered as the client would (response sealed with the key the plaintext names) and the resulting session driven through updates of 0 ms .. 2^32 ms, repeated requests, payloads, keep-alives and accessors - no-unwind clause only. Oracles: no call unwinds (overflow checks on); a non-authentic datagram (by provenance) yields neither Payload nor ClientConnected nor ClientDisconnected, client process_packet returns None, and the snapshot of clients_id / connected_clients / per-client addr, user data, connectedness and time_since_last_received_packet (server) and connected / connecting / reason / time_since_last_received_packet / server_addr (every client) is unchanged; afterwards a genuine payload still surfaces in both directions and the pending client completes its handshake. Non-trivial: a datagram of >= 18 bytes presented from a known address or to a client past the request state (reaches the keyed decode path), or a mutated token that parses. Distinct = hash of the decoded case.".into()
+        "Floods (enumerated): every target endpoint is handed all 256 prefix bytes twice in a row at each length class, 512 hostile datagrams with nothing genuine in between, under the same per-datagram oracles, then genuine traffic must still work. A case stages a secure server holding every protocol state at once (unknown address, pending address, connected victim, connected bystander; clients requesting, responding, connected, disconnected) and presents non-authentic datagrams to the server from every source-address class and to every client: mutations (bit flips in prefix / sequence / body / tag, truncations, extensions, prefix replacement) of genuine datagrams of any session and direction, genuine datagrams replayed or presented at the wrong endpoint, well-formed prefixes with boundary lengths and all-zero / all-ff sequence bytes, random bytes 0..1400; silence is interleaved so a refreshed timer shows. Enumerated: all 256 prefix bytes x 13 boundary lengths x 2 fills x 7 targets; every single-bit flip and every truncation of eight fresh genuine datagrams (payload, keep-alive, response, challenge, request; both directions) presented to the live endpoint they were meant for. Pre-empted requests (enumerated): a damaged copy of a fresh client's request (one bit flipped in the header, the nonce or the sealed token, the trailing tag intact; 130 positions) is presented from an unknown, the pending or the connected address before the genuine request arrives - nothing may change and the genuine handshake from the client's own address must complete. Sealed bodies (enumerated): a peer holding a session key (the pending client, the connected client, the server towards each of them) seals every packet kind 1..15 around bodies of 17 lengths from 0 to 1382 bytes (all-zero and pseudo-random) with a fresh sequence number - authentic datagrams whose body has the wrong size for their kind; no-unwind clause only. Tokens: raw bytes and field-wise mutations of valid serialisations (address count 0/33/2^32-1, 32..300 well-formed entries with and without NONE entries, type tags 0/1/2/3/255, expire < create, zero/negative timeouts, truncations) through ConnectToken::read -> NetcodeClient::new -> update / process_packet / generate_payload_packet / disconnect. Sealed hostile tokens: connection requests whose private token is sealed correctly - an unsecure server's key is public, a secure server's backend may err - around a hostile plaintext (0..100 well-formed address entries with the server's own address first, last, at slot 31 or nowhere, lying counts, unknown type tags, up to 40 NONE entries, random bytes; timeouts 0, negative, i32 extremes; ids 0, 2^63, 2^64-1; expiry at, around and far beyond the server second, clocks 0 and 2^33 s), answered as the client would (response sealed with the key the plaintext names) and the resulting session driven through updates of 0 ms .. 2^32 ms, repeated requests, payloads, keep-alives and accessors - no-unwind clause only. Oracles: no call unwinds (overflow checks on); a non-authentic datagram (by provenance) yields neither Payload nor ClientConnected nor ClientDisconnected, client process_packet returns None, and the snapshot of clients_id / connected_clients / per-client addr, user data, connectedness and time_since_last_received_packet (server) and connected / connecting / reason / time_since_last_received_packet / server_addr (every client) is unchanged; afterwards a genuine payload still surfaces in both directions and the pending client completes its handshake. Non-trivial: a datagram of >= 18 bytes presented from a known address or to a client past the request state (reaches the keyed decode path), or a mutated token that parses. Distinct = hash of the decoded case.".into()
     }
     fn assumptions(&self) -> Vec<String> {
         vec![
@@ -688,11 +731,11 @@ impl Property for C07 {
         PbtCfg { cases: tier.pick(150_000, 3_000_000), max_len: tier.pick(600, 1800), shrink_ms: 120_000 }
     }
     fn required_labels(&self) -> Vec<&'static str> {
-        vec!["keyed_path", "at_unknown", "at_pending", "at_connected", "at_client", "token_case", "token_parsed", "token_many_entries", "sealed_token_case", "sealed_token_answered", "sealed_token_connected", "flood", "sealed_body"]
+        vec!["keyed_path", "at_unknown", "at_pending", "at_connected", "at_client", "token_case", "token_parsed", "token_many_entries", "sealed_token_case", "sealed_token_answered", "sealed_token_connected", "flood", "sealed_body", "preempted_request"]
     }
     fn enums(&self, _tier: Tier) -> Vec<(&'static str, u64)> {
         // genuine_tamper: 8 sample datagrams x (every bit of the first 360 bytes + every truncation up to 360)
-        vec![("prefix_length_grid", 256 * 13 * 2 * 7), ("genuine_tamper", 8 * (360 * 8 + 360)), ("floods", 13 * 2 * 7), ("sealed_bodies", 4 * 15 * SEALED_LENS.len() as u64)]
+        vec![("prefix_length_grid", 256 * 13 * 2 * 7), ("genuine_tamper", 8 * (360 * 8 + 360)), ("floods", 13 * 2 * 7), ("sealed_bodies", 4 * 15 * SEALED_LENS.len() as u64), ("preempted_request", 3 * 130)]
     }
     fn run_enum(&self, name: &str, index: u64, ctx: &mut Ctx) -> Outcome {
         if name == "genuine_tamper" {
@@ -700,6 +743,9 @@ impl Property for C07 {
         }
         if name == "sealed_bodies" {
             return sealed_body(index, ctx);
+        }
+        if name == "preempted_request" {
+            return preempted_request(index, ctx);
         }
         if name == "floods" {
             // the same endpoint is handed all 256 prefix bytes twice in a row (512 hostile datagrams, nothing genuine in between):
